@@ -5,9 +5,9 @@ from .progfam import *
 def run(tier, seed):
     return run_prog_property(
         "C04", ["static", "compile", "scoping"], tier, seed, trace_fams=("static",),
-        rule="MC_Static.tla: six program schemas (let pattern/type/expression/use; scopes and definition order; witnesses, "
+        rule="MC_Static.tla: eight program schemas (let pattern/type/expression/use; scopes and definition order; witnesses, "
              "parameters, main shape and items; calls with builtin and custom signatures, fold/for_while, casts, jets; match; "
-             "containers and literals) whose slots range over alternative pools - every near miss differs from a well-formed "
+             "containers and literals; odd sizes and builtin aliases; integer literals around 2^N at every width and position) whose slots range over alternative pools - every near miss differs from a well-formed "
              "program in one slot. The expected classification is computed by the static rules of Static.tla (written from the "
              "book), never by hand. TemplateProgram::new must accept exactly the programs WellFormed accepts; the well-formed "
              "families of C01 and C10 are included as `never rejected` cases.",
